@@ -1,5 +1,6 @@
 // Handler "frame": histories of NixFrame.tla on a real DataFrame (C15)
 #include "common.hpp"
+#include <algorithm>
 
 namespace {
 
@@ -100,6 +101,20 @@ bool observe(S &s, std::string &why) {
         std::vector<nix::Variant> row = s.df.readRow((nix::ndsize_t) r);
         if (row.size() != s.types.size()) { why = "readRow size"; return false; }
         std::vector<nix::Cell> cs = s.df.readCells((nix::ndsize_t) r, s.names);
+        {   // the answer follows the REQUEST: cells come back in the order asked for, each under the name asked for (reversed
+            // order, and every second column only)
+            std::vector<std::string> rev(s.names.rbegin(), s.names.rend()), sub;
+            for (size_t ci = 0; ci < s.names.size(); ci += 2) sub.push_back(s.names[s.names.size() - 1 - ci]);
+            for (const auto &req : {rev, sub}) {
+                std::vector<nix::Cell> got = s.df.readCells((nix::ndsize_t) r, req);
+                if (got.size() != req.size()) { why = "readCells(names) returned " + std::to_string(got.size()) + " cells for " + std::to_string(req.size()) + " names"; return false; }
+                for (size_t q = 0; q < req.size(); q++) {
+                    size_t ci = (size_t) (std::find(s.names.begin(), s.names.end(), req[q]) - s.names.begin());
+                    long code = ci < s.modelCols ? s.cell[{r, (long) ci + 1}] : 0;
+                    if (got[q].name != req[q] || !(static_cast<nix::Variant &>(got[q]) == val(s.types[ci], code))) { why = "readCells(names in another order): cell " + std::to_string(q) + " of row " + std::to_string(r) + " is not the cell of column '" + req[q] + "'"; return false; }
+                }
+            }
+        }
         for (size_t ci = 0; ci < s.types.size(); ci++) {
             long code = ci < s.modelCols ? s.cell[{r, (long) ci + 1}] : 0;
             nix::Variant want = val(s.types[ci], code);
@@ -173,7 +188,8 @@ json handle(Ctx &c, const json &rec) {
     size_t mc = (size_t) c.opts.value("cols", 2L);
     s.modelCols = mc;
     size_t extra = (size_t) c.opts.value("extra_cols", 2L);
-    for (size_t i = 0; i < mc + extra; i++) { s.types.push_back(TYPES[(c.seed + 3 * i) % 7]); s.names.push_back("col" + std::to_string(i) + (i % 3 == 0 ? " \xc3\xa4" : "")); }
+    for (size_t i = 0; i < mc + extra; i++) { s.types.push_back(TYPES[(c.seed + 3 * i) % 7]); { static const char *NM[] = {"time", "count", "Zeta", "alpha \xc3\xa4", "col", "beta"};        // schema order is not the alphabetical order of the names
+                                                       s.names.push_back(std::string(NM[(i + (size_t) c.seed) % 6]) + (i >= 6 ? std::to_string(i) : "")); } }
     s.f = nix::File::open(s.path, nix::FileMode::Overwrite);
     s.b = s.f.createBlock("b", "t");
     std::vector<nix::Column> cols;
